@@ -273,6 +273,13 @@ func c07One(l rspLayer, in []byte) (string, string) {
 		if len(in) < l.Min && err == nil {
 			return "C07/" + l.Name + "/short-body-accepted", fmt.Sprintf("a %d-byte body (minimum %d) was decoded without error: % x", len(in), l.Min, in)
 		}
+		if len(in) < l.Min {
+			// the same through the decoder registered for the layer type (what
+			// gopacket.NewPacket users such as the SDR walk see): no such layer
+			if lt, pkt := c07Packet(lay, in); pkt != nil && pkt.Layer(lt) != nil {
+				return "C07/" + l.Name + "/short-body-yields-a-layer-in-the-packet", fmt.Sprintf("gopacket.NewPacket on a %d-byte body (minimum %d) contains a %v layer: % x", len(in), l.Min, lt, in)
+			}
+		}
 		return "", ""
 	}
 	if err != nil {
@@ -286,6 +293,16 @@ func c07One(l rspLayer, in []byte) (string, string) {
 	}
 	if name, got, exp := compareFields(want, lay); name != "" {
 		return "C07/" + l.Name + "/" + name, fmt.Sprintf("decoding % x: field %s = %s, the specification's encoding means %s", in, name, got, exp)
+	}
+	// the same through the decoder registered for the layer type
+	if lt, pkt := c07Packet(lay, in); pkt != nil {
+		pl := pkt.Layer(lt)
+		if pl == nil {
+			return "C07/" + l.Name + "/valid-encoding-yields-no-layer-in-the-packet", fmt.Sprintf("gopacket.NewPacket on % x has no %v layer (error layer: %v)", in, lt, pkt.ErrorLayer())
+		}
+		if name, got, exp := compareFields(want, pl); name != "" {
+			return "C07/" + l.Name + "/" + name + "/packet", fmt.Sprintf("gopacket.NewPacket on % x: field %s = %s, the specification's encoding means %s", in, name, got, exp)
+		}
 	}
 	// the same must hold whatever the value decoded before: decode into a value
 	// that has just decoded each of the layer's other shapes
@@ -308,6 +325,26 @@ func c07One(l rspLayer, in []byte) (string, string) {
 		}
 	}
 	return "", ""
+}
+
+// c07Packet decodes in through gopacket.NewPacket starting at lay's layer
+// type; nil if the layer is not a gopacket.Layer with a registered decoder.
+func c07Packet(lay decoder, in []byte) (lt gopacket.LayerType, pkt gopacket.Packet) {
+	gl, ok := lay.(gopacket.Layer)
+	if !ok {
+		return 0, nil
+	}
+	lt = gl.LayerType()
+	if lt == gopacket.LayerTypeZero || lt == gopacket.LayerTypePayload {
+		return lt, nil
+	}
+	if p := guard(func() { pkt = gopacket.NewPacket(append([]byte{}, in...), lt, gopacket.DecodeOptions{Lazy: false, NoCopy: true}) }); p != "" {
+		return lt, nil
+	}
+	if el := pkt.ErrorLayer(); el != nil && strings.Contains(el.Error().Error(), "no decoder") {
+		return lt, nil
+	}
+	return lt, pkt
 }
 
 var c07EarlierCache map[string][][]byte
